@@ -46,7 +46,8 @@ def _case(draw, nr_max, min_pots=1, max_pots=4):
     route = draw(st.sampled_from(["api_class", "writePotentials", "potable", "potable"]))
     m = draw(gen.pair_model(max_pots, 2, pycallables=(route != "potable"), min_pots=min_pots))
     cutoff, nr = draw(gen.grid_rc(nr_max))
-    m.update({"cutoff": cutoff, "nr": nr, "route": route})
+    m.update({"cutoff": cutoff, "nr": nr, "route": route,
+              "container": draw(st.sampled_from(["list", "list", "tuple", "iterator", "generator"]))})
     return m
 
 
@@ -92,7 +93,8 @@ def produce(case):
         if res["rc"] != 0 or res["out"] is None:
             raise CliFailed("rc=%r stderr=%s" % (res["rc"], res["stderr"][-600:]))
         return res["out"].decode(), txt
-    pots = pairtab.api_potentials(case)
+    pots = pairtab.api_potentials(case, case.get("container", "list") if route == "writePotentials" else
+                                  ("tuple" if case.get("container") == "tuple" else "list"))
     fp = io.StringIO()
     if route == "api_class":
         LAMMPS_PairTabulation(pots, case["cutoff"], case["nr"]).write(fp)
@@ -183,6 +185,8 @@ def verify_text(case, out, route_kind, ctx=""):
 
 def check_case(case):
     cls = ["route:" + case["route"], "blocks=%d" % len(case["pair"])]
+    if case["route"] == "writePotentials":
+        cls.append("container:" + case.get("container", "list"))
     if case.get("special"):
         cls.append("special:" + case["special"])
     if len(case["pair"]) >= 2:
